@@ -391,13 +391,27 @@ pub fn check_scan(c: &ScanCase, info: &mut CaseInfo) -> Outcome {
             // recorded finding: the import-following phase of the scan starts from the entries of file_cache, of
             // which a quarter (any quarter) was evicted during the main phase; modules reached only through the
             // imports / pytest_plugins of an evicted file are then not analysed. Signature: every differing entry
-            // concerns a name defined in a module that is neither a test module nor a conftest.
+            // concerns a name defined in a module that is neither a test module nor a conftest
             let reached: BTreeSet<String> = m.all_defs().into_iter().filter(|d| !(m.ws.files[d.file].loc.is_test() || m.ws.files[d.file].loc.is_conftest())).map(|d| m.def_tok(d).name.clone()).collect();
-            let diff: Vec<&(String, Vec<String>, String)> = fb.symmetric_difference(&fo).collect();
-            if !diff.is_empty() && diff.iter().all(|(sec, names, entry)| sec != "files" && (names.iter().any(|x| reached.contains(x)) || reached.iter().any(|x| entry.contains(x.as_str())))) {
+            // ... or sits inside such a module (its usages are recorded in one run only)
+            let reached_files: BTreeSet<String> = m.ws.files.iter().filter(|f| !(f.loc.is_test() || f.loc.is_conftest())).map(|f| f.loc.rel()).collect();
+            let hit = |e: &(String, Vec<String>, String)| -> bool {
+                let (sec, names, entry) = e;
+                sec != "files" && (names.iter().any(|x| reached.contains(x)) || reached.iter().any(|x| entry.contains(x.as_str())) || reached_files.iter().any(|x| entry.contains(x.as_str())) || names.iter().any(|x| reached_files.contains(x)))
+            };
+            let attributed: Vec<(String, Vec<String>, String)> = fb.symmetric_difference(&fo).filter(|e| hit(e)).cloned().collect();
+            if !attributed.is_empty() {
                 known.insert(KF_EVICT.to_string());
                 info.known_trigger = true;
-                detail.get_or_insert(format!("{}: `{}` answer differs: {}", what, diff[0].0, diff[0].2));
+                detail.get_or_insert(format!("{}: `{}` answer differs: {}", what, attributed[0].0, attributed[0].2));
+                // the rest of the difference is judged as on any other tree
+                let fb2: Flat = fb.iter().filter(|e| !attributed.contains(e)).cloned().collect();
+                let fo2: Flat = fo.iter().filter(|e| !attributed.contains(e)).cloned().collect();
+                if fb2 != fo2 {
+                    if let Some(fail) = attribute_diff(&m, &s_pick, &s_diag, &fb2, &fo2, &what, &mut known, &mut detail, info) {
+                        return fail;
+                    }
+                }
                 continue;
             }
         }
